@@ -955,6 +955,10 @@ def get_comment_style(path: StrPath) -> Optional[Type[CommentStyle]]:
             Optional[Type[CommentStyle]],
             EXTENSION_COMMENT_STYLE_MAP_LOWERCASE.get(path.suffix.lower()),
         )
+    # Only FILE.license, in exactly this spelling, is a file of the tool's own
+    # that is replaced as a whole. NOTES.LICENSE is somebody's file.
+    if style is EmptyCommentStyle and path.suffix != ".license":
+        style = None
     return style
 
 
